@@ -117,6 +117,9 @@ func collectDroppedErrors(p *Program) (dropped []errSite, total int) {
 				if !ok {
 					continue
 				}
+				if calleeF != nil && neverFails(calleeF) {
+					continue // every return of the callee carries the constant nil error
+				}
 				total++
 				how := ""
 				switch x := ins.(type) {
@@ -223,7 +226,7 @@ func ruleERRDISC(p *Program, rep *Report, pkgFilter string, ioOnly bool) {
 				if res.Len() == 0 || !errorLike(res.At(res.Len()-1).Type()) {
 					continue
 				}
-				if _, _, ok := errCalleeOf(p, c); ok {
+				if _, cf, ok := errCalleeOf(p, c); ok && !(cf != nil && neverFails(cf)) {
 					consumedBy[funcName(fn)]++
 				}
 			}
@@ -264,4 +267,21 @@ func ruleERRDISC(p *Program, rep *Report, pkgFilter string, ioOnly bool) {
 			rep.OK("ERRDISC", c+"|consumed", "", fmt.Sprintf("%d error-returning call(s) consumed", consumedBy[c]-droppedIn[c]))
 		}
 	}
+}
+
+// neverFails: every Return's error-like last result is the nil constant.
+func neverFails(fn *ssa.Function) bool {
+	if len(fn.Blocks) == 0 {
+		return false
+	}
+	n := 0
+	for _, b := range fn.Blocks {
+		if r, ok := b.Instrs[len(b.Instrs)-1].(*ssa.Return); ok {
+			n++
+			if len(r.Results) == 0 || !isNilConst(r.Results[len(r.Results)-1]) {
+				return false
+			}
+		}
+	}
+	return n > 0
 }
